@@ -577,6 +577,46 @@ pub struct Exec {
     pub contended: u64,
 }
 
+/// shuttle reports deadlocks and failed tasks on stderr before it panics; those are expected
+/// outcomes here (they become verdicts), so stderr is parked on /dev/null for the duration of an
+/// execution.
+struct QuietStderr {
+    saved: i32,
+}
+
+extern "C" {
+    fn dup(fd: i32) -> i32;
+    fn dup2(from: i32, to: i32) -> i32;
+    fn close(fd: i32) -> i32;
+}
+
+impl QuietStderr {
+    fn new() -> Option<QuietStderr> {
+        if std::env::var_os("VERIF_KEEP_STDERR").is_some() {
+            return None;
+        }
+        let null = std::fs::OpenOptions::new().write(true).open("/dev/null").ok()?;
+        use std::os::fd::AsRawFd;
+        unsafe {
+            let saved = dup(2);
+            if saved < 0 {
+                return None;
+            }
+            dup2(null.as_raw_fd(), 2);
+            Some(QuietStderr { saved })
+        }
+    }
+}
+
+impl Drop for QuietStderr {
+    fn drop(&mut self) {
+        unsafe {
+            dup2(self.saved, 2);
+            close(self.saved);
+        }
+    }
+}
+
 /// One execution of the program on scanner threads under `strategy`.
 pub fn execute(w: &Workload, prep: &Prepared, strategy: Strategy, seed: u64) -> Exec {
     let rt = Arc::new(Runtime::new(true, w.files.clone(), knobs_for(w, false)));
@@ -591,6 +631,7 @@ pub fn execute(w: &Workload, prep: &Prepared, strategy: Strategy, seed: u64) -> 
     config.silence_warnings = true;
     let runner = shuttle::Runner::new(scheduler, config);
     let (rt2, res2) = (rt.clone(), result.clone());
+    let _quiet = QuietStderr::new();
     let outcome = std::panic::catch_unwind(std::panic::AssertUnwindSafe(|| {
         runner.run(move || {
             let r = rt2.run_program(&forms);
